@@ -46,7 +46,8 @@ type foThread struct {
 type foBuild struct {
 	OK     bool
 	TTLs   []int64
-	CtxErr bool // the error is a context cancellation
+	CtxErr bool    // the error is a context cancellation
+	Iso    []int64 // ttl updates made on a context derived with WithTTL(ctx, sameTTL, false): must stay local to it
 }
 
 type foScenario struct {
@@ -101,6 +102,9 @@ func (sc foScenario) describe() map[string]interface{} {
 		}
 		if len(b.TTLs) > 0 {
 			s += fmt.Sprint(b.TTLs)
+		}
+		if len(b.Iso) > 0 {
+			s += "iso" + fmt.Sprint(b.Iso)
 		}
 		bs = append(bs, s)
 	}
@@ -330,6 +334,8 @@ func runFoScenario(d *Driver, id string, sc foScenario, res *Result) (trace []st
 	_ = maxT
 
 	checkedResults := map[int]bool{}
+	threadBuilt := map[int]bool{}  // the goroutine's own Get reached the builder (synchronously)
+	threadWaited := map[int]bool{} // the goroutine was seen blocked in waitForValue
 	seenBuild := map[*callout]bool{}
 	seenCall := map[*callout]bool{}
 	lastBuildTTLs := map[int][]int64{}
@@ -415,6 +421,18 @@ func runFoScenario(d *Driver, id string, sc foScenario, res *Result) (trace []st
 			}
 		}
 		for _, co := range newBuilds {
+			if co.tid >= 0 && co.tid < n && !co.detached {
+				threadBuilt[co.tid] = true
+			}
+		}
+		s.mu.Lock()
+		for t := 0; t < n; t++ {
+			if started[t] && s.parked[t] == nil && s.results[t] == nil {
+				threadWaited[t] = true
+			}
+		}
+		s.mu.Unlock()
+		for _, co := range newBuilds {
 			k := kidOf(co.key)
 			if sc.Threads[co.tid].Skip || faulty || sc.Collide {
 				continue // (colliding keys evict each other's entry from the shared slot: a collision may cost a miss)
@@ -482,6 +500,33 @@ func runFoScenario(d *Driver, id string, sc foScenario, res *Result) (trace []st
 
 	var firstCorr *foViolation // remembered; the run continues under the monitors alone
 	modelOff := false
+	skipChecked := map[int]bool{}
+	// SkipRead forces a refresh (C06): a Get under SkipRead that the machine elected OWNER of its key lock (it did not find the
+	// key locked by somebody else) must have reached the builder - it is never answered from the backend or the failure
+	// cache. Evaluated after the model took the step; only while model and implementation still agreed before it.
+	skipMonitor := func(step string, agreedBefore bool) *foViolation {
+		if !agreedBefore || faulty {
+			return nil
+		}
+		s.mu.Lock()
+		done := map[int]*getResult{}
+		for t, r := range s.results {
+			done[t] = r
+		}
+		s.mu.Unlock()
+		for t, r := range done {
+			if skipChecked[t] {
+				continue
+			}
+			skipChecked[t] = true
+			if sc.Threads[t].Skip && !sc.Threads[t].CancelFirst && !threadBuilt[t] && d.Ask(fmt.Sprintf("fo owner %s %d", id, t)) == "1" {
+				if v := emit(&foViolation{"C06", "monitor", "fo:skipread-not-rebuilt", fmt.Sprintf("after %s: Get #%d for k%d ran under SkipRead as the owner of its key lock but returned (%d, %v) without invoking the builder", step, t, sc.Threads[t].Key, r.val, r.err), []string{"C03"}}); v != nil {
+					return v
+				}
+			}
+		}
+		return nil
+	}
 	compare := func(step, reply string) *foViolation {
 		if firstCorr != nil || modelOff {
 			return nil
@@ -534,6 +579,14 @@ func runFoScenario(d *Driver, id string, sc foScenario, res *Result) (trace []st
 			close(co.ack)
 			for _, ttl := range dir.bTTLs {
 				cache.WithTTL(bctx, time.Duration(ttl), true)
+			}
+			if len(dir.bIso) > 0 {
+				// a nested computation with a ttl of its own: a context DERIVED with WithTTL(ctx, ttl, false) - here even with the
+				// same ttl value the caller's carries - is isolated, lowering it must not reach the caller's ttl or the store
+				iso := cache.WithTTL(bctx, cache.TTL(bctx), false)
+				for _, ttl := range dir.bIso {
+					cache.WithTTL(iso, time.Duration(ttl), true)
+				}
 			}
 			if dir.cancel != nil {
 				dir.cancel()
@@ -655,7 +708,7 @@ func runFoScenario(d *Driver, id string, sc foScenario, res *Result) (trace []st
 					b = sc.Builds[buildIdx]
 				}
 				buildIdx++
-				dir.bOK, dir.bTTLs, dir.bCtx = b.OK, b.TTLs, b.CtxErr
+				dir.bOK, dir.bTTLs, dir.bCtx, dir.bIso = b.OK, b.TTLs, b.CtxErr, b.Iso
 				if b.OK {
 					nextVal++
 					dir.bVal = nextVal
@@ -743,10 +796,14 @@ func runFoScenario(d *Driver, id string, sc foScenario, res *Result) (trace []st
 			if v := monitors(step); v != nil {
 				return trace, v
 			}
+			agreed := firstCorr == nil && !modelOff
 			if v := compare(step, ask(line+timeSuffix(line, t0, t1))); v != nil {
 				if v.kind == "ambig" {
 					return trace, nil
 				}
+				return trace, v
+			}
+			if v := skipMonitor(step, agreed); v != nil {
 				return trace, v
 			}
 			// C05 bookkeeping after the step
@@ -766,10 +823,14 @@ func runFoScenario(d *Driver, id string, sc foScenario, res *Result) (trace []st
 		if v := monitors(step); v != nil {
 			return trace, v
 		}
+		agreed := firstCorr == nil && !modelOff
 		if v := compare(step, ask(fmt.Sprintf("%s %d %d", line, t0, t1))); v != nil {
 			if v.kind == "ambig" {
 				return trace, nil
 			}
+			return trace, v
+		}
+		if v := skipMonitor(step, agreed); v != nil {
 			return trace, v
 		}
 	}
@@ -909,6 +970,9 @@ func genFoScenario(profile string, seed int64, idx int, tier string) foScenario 
 			for j := 0; j < 1+rng.Intn(2); j++ {
 				fb.TTLs = append(fb.TTLs, []int64{int64(time.Minute), int64(3 * time.Hour), 0, -int64(time.Minute), int64(time.Second)}[rng.Intn(5)])
 			}
+		}
+		if rng.Intn(5) == 0 {
+			fb.Iso = []int64{[]int64{int64(time.Second), -int64(time.Minute), int64(time.Millisecond)}[rng.Intn(3)]}
 		}
 		sc.Builds = append(sc.Builds, fb)
 	}
